@@ -210,6 +210,31 @@ var annos = []*anno{
 	{text: " [add_latency: x]", invalid: kAnnoMalformed},
 	{text: " [foo: 1]", invalid: kAnnoUnknown},
 	{text: " [add_latency: -500ms]", latency: -500 * time.Millisecond}, // the example.dae form; thorough only
+	// two-item lists, both orders: every item is validated wherever it stands
+	{text: " [add_latency: 5ms, foo: 1]", invalid: kAnnoUnknown},
+	{text: " [foo: 1, add_latency: 5ms]", invalid: kAnnoUnknown},
+	{text: " [add_latency: 5ms, add_latency: x]", invalid: kAnnoMalformed},
+	{text: " [add_latency: x, add_latency: 5ms]", invalid: kAnnoMalformed},
+	// valid pair: the statement does not say which offset applies; annotation.go documents
+	// "Only the first setting is valid", which is what the reference takes (see r.Assume)
+	{text: " [add_latency: 5ms, add_latency: 9ms]", latency: 5 * time.Millisecond},
+}
+
+// annosBasic: the single-item alphabet (+ the negative offset in thorough); annosAll adds the two-item lists.
+func annosBasic(thorough bool) []*anno {
+	if thorough {
+		return annos[:5]
+	}
+	return annos[:4]
+}
+
+func annosAll(thorough bool) []*anno {
+	out := append([]*anno{}, annos[:4]...)
+	out = append(out, annos[5:]...)
+	if thorough {
+		out = append(out, annos[4])
+	}
+	return out
 }
 
 type line struct {
@@ -420,10 +445,6 @@ func enumerate(thorough bool) []*def {
 		defs = append(defs, d)
 	}
 	polMin := policies[0]
-	nAnno := 4
-	if thorough {
-		nAnno = 5
-	}
 	full := condsFull()
 	red := condsReduced()
 
@@ -433,7 +454,7 @@ func enumerate(thorough bool) []*def {
 	}
 	// F1: one line, one condition (full value alphabet, <=2 values) x annotation
 	for _, c := range full {
-		for _, a := range annos[:nAnno] {
+		for _, a := range annosAll(thorough) {
 			add("F1:1line-1cond", polMin, &line{conds: []*cond{c}, anno: a})
 		}
 	}
@@ -456,7 +477,7 @@ func enumerate(thorough bool) []*def {
 	var lines2 []*line
 	for _, c1 := range red {
 		for _, c2 := range red {
-			for ai, a := range annos[:nAnno] {
+			for ai, a := range annosBasic(thorough) {
 				l := &line{conds: []*cond{c1, c2}, anno: a}
 				add("F2:1line-2cond", polMin, l)
 				if ai < 2 {
@@ -483,6 +504,27 @@ func enumerate(thorough bool) []*def {
 	for _, l1 := range la {
 		for _, l2 := range la {
 			add("F3:2lines", polMin, l1, l2)
+		}
+	}
+	// FA: two lines over a small condition alphabet x the FULL annotation alphabet (two-item lists on the
+	// line that supplies the annotation, on a line shadowed by the first one, on a line selecting nothing)
+	smallConds := []*cond{
+		{input: "name", vals: []*value{nv("hk1")}},
+		{input: "name", not: true, vals: []*value{nv("hk1")}},
+		{input: "name", vals: []*value{nv("sg")}},
+		{input: "subtag", vals: []*value{tv("s1")}},
+		{input: "name", vals: []*value{nv("keyword: ''")}},
+		{input: "name", vals: []*value{nv("zz")}},
+	}
+	var lb []*line
+	for _, c := range smallConds {
+		for _, a := range annosAll(thorough) {
+			lb = append(lb, &line{conds: []*cond{c}, anno: a})
+		}
+	}
+	for _, l1 := range lb {
+		for _, l2 := range lb {
+			add("FA:2lines*annolists", polMin, l1, l2)
 		}
 	}
 	return defs
@@ -642,10 +684,10 @@ func main() {
 
 	// pool size bound per family: the 2-line family is the big one
 	maxPool := 3
-	famPool := map[string]int{"F0": 3, "F1": 3, "FP": 3, "F2": 3, "F3": 2}
+	famPool := map[string]int{"F0": 3, "F1": 3, "FP": 3, "F2": 3, "F3": 2, "FA": 3}
 	if r.Thorough() {
 		maxPool = 4
-		famPool = map[string]int{"F0": 4, "F1": 4, "FP": 4, "F2": 3, "F3": 3}
+		famPool = map[string]int{"F0": 4, "F1": 4, "FP": 4, "F2": 3, "F3": 3, "FA": 3}
 	}
 	pools := buildPools(maxPool, log)
 	poolsG = pools
@@ -658,8 +700,8 @@ func main() {
 	r.Set("max_pool_nodes", maxPool)
 	r.Set("group_definitions", len(defs))
 	r.Rule(fmt.Sprintf("every ordered node pool of <=%d nodes (<=%d for family F2, <=%d for family F3) over %d node kinds (names %q x subtags %q; duplicates by repetition) x every group definition of the families "+
-		"F0 no filter x 16 policies; F1 one line, one condition name()/subtag()/link() with <=2 values over the full value alphabet (exact, keyword:, regex: incl. regexp2-only lookahead and an invalid pattern, unknown key), '!' on/off, x annotation {none, add_latency:5ms, add_latency:x, foo:1}; "+
-		"F2 one line, two conditions over a reduced condition alphabet x annotation; F3 two lines over a reduced line alphabet; FP every policy (5 names, fixed(i) i in -1..4, fixed(x), bare fixed, bogus, fixed(0,1), fixed(k:0), !fixed(0)) x 6 filter shapes. "+
+		"F0 no filter x 16 policies; F1 one line, one condition name()/subtag()/link() with <=2 values over the full value alphabet (exact, keyword:, regex: incl. regexp2-only lookahead and an invalid pattern, unknown key), '!' on/off, x annotation {none, add_latency:5ms, add_latency:x, foo:1, and the two-item lists [5ms,foo:1] [foo:1,5ms] [5ms,x] [x,5ms] [5ms,9ms]}; "+
+		"F2 one line, two conditions over a reduced condition alphabet x single-item annotation; F3 two lines over a reduced line alphabet (single-item annotations); FA two lines over 6 conditions x the full annotation alphabet incl. the two-item lists; FP every policy (5 names, fixed(i) i in -1..4, fixed(x), bare fixed, bogus, fixed(0,1), fixed(k:0), !fixed(0)) x 6 filter shapes. "+
 		"A case is (definition, pool). distinct_nontrivial = number of distinct (definition, reference outcome) pairs — outcome = set of expected error kinds, or ordered member kinds with the line supplying each annotation — over definitions with >=1 filter line or a non-'min' policy and non-empty pools", maxPool, famPool["F2"], famPool["F3"], len(kinds), names, tags))
 
 	if r.ReplayArg != "" {
@@ -856,6 +898,7 @@ func main() {
 	}
 	r.Assume("the three calls (NewDialerSelectionPolicyFromGroupParam, DialerSet.FilterAndAnnotate -> NewAnnotation, results handed unchanged to NewDialerGroup) are replicated from the group loop of control/control_plane.go; at start the check verifies textually that control_plane.go still contains these calls in this order (exit 2 otherwise); package control itself is not executed")
 	r.Assume("the DialerSet is assembled by an injected helper in the state NewDialerSetFromLinksContext leaves it (dialers in pool order, nodeToTagMap = subscription tag) from dialer.NewDialer over a no-op netproxy.Dialer with DisableCheck; link parsing is not part of this property")
+	r.Assume("for a valid annotation list with two add_latency items the statement does not fix which offset applies; the reference follows the comment in component/outbound/dialer/annotation.go ('Only the first setting is valid'): [add_latency: 5ms, add_latency: 9ms] means +5ms. Every item of a list is validated: an unknown key or malformed duration anywhere in the list is a configuration error")
 	r.Assume("regexp2-only patterns are given their meaning by hand-written Go predicates; RE2-expressible ones are cross-checked against Go's regexp at start")
 	r.Finish()
 }
